@@ -60,7 +60,29 @@ def line_index(summary):
         for m, md in cd["methods"].items():
             for a in md["accesses"]:
                 idx.setdefault((a[5], a[6]), set()).add((c, a[0], m, a[1]))
+            # a MutexLockGuard constructed on a member mutex ("L") / the implicit destruction of the synchronisation members
+            # at a destructor's closing brace ("D"): only reached through frames of the primitives (Mutex.h, Condition.*)
+            for a in md.get("lockuses", []):
+                idx.setdefault((a[1], a[2]), set()).add((c, a[0], m, "L"))
+            for a in md.get("destroys", []):
+                idx.setdefault((a[1], a[2]), set()).add((c, a[0], m, "D"))
     return idx
+
+
+PRIMITIVE_FILES = ("muduo/base/Mutex.h", "muduo/base/Condition.h", "muduo/base/Condition.cc", "muduo/base/Atomic.h",
+                   "muduo/net/SocketsOps.cc", "muduo/net/SocketsOps.h",      # SocketsOps: thin system-call wrappers
+                   "muduo/base/LogStream.h")                                # FixedBuffer reached through a buffer member
+_THREAD_ROOTS = {}
+
+
+def thread_roots(cls):
+    if not _THREAD_ROOTS:
+        for line in open(os.path.join(vlib.ROOT, "lib", "C08_table.txt")):
+            w = line.split("#")[0].split()
+            if len(w) >= 4 and w[0] == "method" and w[3] == "thread":
+                _THREAD_ROOTS.setdefault(w[1], []).append(w[2])
+        _THREAD_ROOTS.setdefault("", [])
+    return _THREAD_ROOTS.get(cls, [])
 
 
 _TABLE_CLASS = {}
@@ -73,6 +95,35 @@ def table_class(cls, field):
             if len(w) >= 4 and w[0] == "field":
                 _TABLE_CLASS[(w[1], w[2])] = w[3]
     return _TABLE_CLASS.get((cls, field), "?")
+
+
+_TABLE_CONTRACT = {}
+
+
+def table_contract(cls, meth):
+    if not _TABLE_CONTRACT:
+        for line in open(os.path.join(vlib.ROOT, "lib", "C08_table.txt")):
+            w = line.split("#")[0].split()
+            if len(w) >= 4 and w[0] == "method":
+                _TABLE_CONTRACT[(w[1], w[2])] = w[3]
+    return _TABLE_CONTRACT.get((cls, meth), "?")
+
+
+# (class, method, number of bodies the extractor must have analysed): the operations named in the property text
+NAMED_BODIES = [("EventLoop", "runInLoop", 1), ("EventLoop", "queueInLoop", 1), ("EventLoop", "runAt", 1), ("EventLoop", "runAfter", 1),
+                ("EventLoop", "runEvery", 1), ("EventLoop", "cancel", 1), ("EventLoop", "quit", 1), ("EventLoop", "queueSize", 1),
+                ("EventLoop", "loop", 1), ("EventLoop", "updateChannel", 1), ("EventLoop", "removeChannel", 1),
+                ("TimerQueue", "addTimer", 1), ("TimerQueue", "cancel", 1),
+                ("TcpConnection", "send", 3), ("TcpConnection", "shutdown", 1), ("TcpConnection", "forceClose", 1),
+                ("TcpConnection", "forceCloseWithDelay", 1), ("TcpConnection", "startRead", 1), ("TcpConnection", "stopRead", 1),
+                ("TcpConnection", "connectEstablished", 1), ("TcpConnection", "connectDestroyed", 1),
+                ("TcpServer", "start", 1), ("TcpClient", "connect", 1), ("TcpClient", "disconnect", 1), ("TcpClient", "stop", 1),
+                ("TcpClient", "connection", 1), ("EventLoopThreadPool", "start", 1), ("EventLoopThreadPool", "getNextLoop", 1),
+                ("ThreadPool", "run", 1), ("BlockingQueue", "put", 2), ("BlockingQueue", "take", 1), ("BlockingQueue", "drain", 1),
+                ("BlockingQueue", "size", 1), ("BoundedBlockingQueue", "put", 2), ("BoundedBlockingQueue", "take", 1),
+                ("BoundedBlockingQueue", "size", 1), ("CountDownLatch", "wait", 1), ("CountDownLatch", "countDown", 1),
+                ("CountDownLatch", "getCount", 1), ("AsyncLogging", "append", 1), ("Logging", "Logger_Logger", 4),
+                ("Logging", "Logger_dtor_Logger", 1), ("Logging", "Logger_Impl", 1), ("Logging", "Logger_formatTime", 1)]
 
 
 def counterpart(recs, cls, site, field, kind):
@@ -105,6 +156,10 @@ def viol_key(recs, v):
     cls, site, what, kind = v[0], v[1], v[2], v[3]
     if kind in ("R", "W"):
         return "%s::%s@%s:%s|%s" % (cls, what, site, kind, counterpart(recs, cls, site, what, kind))
+    if kind == "destroy":
+        return "%s::%s@%s:destroy|%s" % (cls, what, site, "/".join(thread_roots(cls)) or "-")
+    if kind == "useafter":
+        return "%s::%s@%s:useafter|~%s" % (cls, what, site, cls)
     return "%s::%s@%s:%s" % (cls, what or "-", site, kind)
 
 
@@ -122,6 +177,22 @@ def viol_text(recs, v, summary):
         cp = counterpart(recs, cls, site, what, kind)
         return ("%s::%s is %s in %s%s without the protection its class requires, conflicting with %s"
                 % (cls, what, "read" if kind == "R" else "written", site, where, cp))
+    if kind == "destroy":
+        try:
+            md = summary["classes"][cls]["methods"][meth]
+            where = " at " + ",".join(sorted(set("%s:%s" % (a[1], a[2]) for a in md["destroys"] if a[0] == what)))
+            jg = md.get("join")
+        except KeyError:
+            jg = None
+        return ("%s::%s is destroyed by %s%s while the object's thread (%s) may still use it: %s" %
+                (cls, what, site, where, "/".join(thread_roots(cls)) or "?",
+                 "no join() on any path" if jg is None else
+                 "join() is skipped on the strength of %s, which that thread itself writes" % ",".join(jg)))
+    if kind == "useafter":
+        flags = [w[2] for w in (l.split("#")[0].split() for l in open(os.path.join(vlib.ROOT, "lib", "C08_table.txt")))
+                 if len(w) >= 3 and w[0] == "exitflag" and w[1] == cls]
+        return ("%s::%s still uses %s after storing %s, the flag on which the owner thread leaves its loop and destroys the "
+                "object (~%s): use after release" % (cls, site, what, "/".join(flags) or "the exit flag", cls))
     if kind == "call":
         return "%s::%s (an any-thread / loop context) calls the loop-only or set-up method %s directly" % (cls, site, what)
     if kind == "nofailfast":
@@ -185,23 +256,42 @@ def short_report(rep, maxframes=12):
 
 
 def map_report(rep, idx):
-    """-> (set of (class, field) common to both stacks, [(class, field, method, kind) per stack])"""
+    """-> (set of (class, field) common to both stacks, [(class, field, method, kind) per stack]).
+    Each stack is attributed by its first frame inside /repo; frames of the synchronisation primitives (Mutex.h,
+    Condition.*, Atomic.h) are passed through to the frame that uses the primitive - a MutexLockGuard on a member mutex
+    or the implicit destruction of a member at a destructor's closing brace (entries "L"/"D" of the index)."""
     per = []
     repo = vlib.REPO.rstrip("/") + "/"
     for what, frames in rep["stacks"][:2]:
         hit = set()
+        via_prim = False
         for (fn, fl, ln) in frames:
             if not fl.startswith(repo):
                 continue
             rel = fl[len(repo):]
-            if (rel, ln) in idx:
-                hit = idx[(rel, ln)]
-                break
+            if rel in PRIMITIVE_FILES:
+                via_prim = True
+                continue
+            cand = idx.get((rel, ln), set())
+            if via_prim:
+                prim = set(x for x in cand if x[3] in ("L", "D"))
+                hit = prim or set(x for x in cand if x[3] not in ("L", "D"))
+            else:
+                hit = set(x for x in cand if x[3] not in ("L", "D"))
+            break
         per.append(hit)
     if len(per) < 2:
         return set(), per
     common = set((c, f) for (c, f, m, k) in per[0]) & set((c, f) for (c, f, m, k) in per[1])
     return common, per
+
+
+def fail_tail(se, so):
+    """what ended a scenario abnormally: the FATAL / assertion / signal lines of its output, then its last lines."""
+    txt = (se or "") + "\n" + (so or "")
+    keyl = [l for l in txt.split("\n") if re.search(r"FATAL|Assertion|abortNotInLoopThread|DEADLYSIGNAL|TIMEOUT|terminate called|AddressSanitizer", l)]
+    last = [l for l in txt.strip().split("\n")[-6:]]
+    return "\n".join(keyl[:12] + ["..."] + last)[-3000:]
 
 
 def run_one(exe, args, env, timeout=40):
@@ -247,11 +337,17 @@ def run(chk, replay=None):
     idx = line_index(summary)
     known = dict((k["key"], k["text"]) for k in vlib.known_findings() if k["property"] == PROP)
 
-    def known_for_member(cls, field, methods):
+    def known_for_member(cls, field, methods, fns=()):
         """a TSan report on cls::field between `methods` is explained by a recorded finding on that member at one of them"""
         for key in known:
-            m = re.match(r"([\w~]+)::([\w~]+)@([^:|]+):", key)
-            if m and m.group(1) == cls and m.group(2) == field and m.group(3).split("/")[-1] in methods:
+            m = re.match(r"([\w~]+)::([\w~]+)@([^:|]+):(\w+)(?:\|(\S+))?", key)
+            if not m or m.group(1) != cls or m.group(2) != field:
+                continue
+            if m.group(3).split("/")[-1] in methods:
+                return key
+            # lifetime findings: the reporting frame is a callee of the site (quit -> wakeup); the other end identifies it
+            if m.group(4) in ("useafter", "destroy") and m.group(5) and set(m.group(5).split("/")) & set(methods) and \
+               any(("::%s(" % m.group(3).split("/")[-1]) in fn for fn in fns):
                 return key
         return None
 
@@ -273,7 +369,8 @@ def run(chk, replay=None):
         rounds = 1 if tier == "quick" else 6
         scen = [(n, max(rounds, int(o.get("rounds", 1)) if tier != "quick" else 1)) for (k, n, o, f) in corpus if k == "scenario"]
         seen = set(n for n, _ in scen)
-        scen += [(n, rounds) for n in all_scen if n not in seen]
+        # x_* scenarios are demonstrations of hazards outside C08's operation list (docs/C08.md); they run only from a replay file
+        scen += [(n, rounds) for n in all_scen if n not in seen and not n.startswith("x_")]
         ffops = list(FAILFAST_OPS)
     scen = [(n, r) for (n, r) in scen if n in all_scen]
 
@@ -309,6 +406,23 @@ def run(chk, replay=None):
                          "violations": len(recs["V"]),
                          "observations": ["%s::%s reads %s in a debug assert before the thread check" % (o[0], o[1], o[2]) for o in recs["O"]]}
 
+    # raw-`this` functors posted by any-thread methods of shared_ptr-managed classes: lifetime hazards (observation; the
+    # field-level discipline does not cover object lifetime - docs/C08.md, residue 2)
+    for c, cd in sorted(summary["classes"].items()):
+        if not cd.get("shared"):
+            continue
+        for m, md in sorted(cd["methods"].items()):
+            for rp in md.get("rawposts", []):
+                if table_contract(c, m) == "any":
+                    chk.cov["static"]["observations"].append(
+                        "%s::%s posts %s::%s bound to the raw `this` at %s:%s (lifetime rests on the caller)" % (c, m, rp[0], rp[1], rp[2], rp[3]))
+    # every operation the property names has been seen by the extractor, with all its overloads
+    named_missing = []
+    for (c, m, nb) in NAMED_BODIES:
+        md = summary["classes"].get(c, {}).get("methods", {}).get(m)
+        if md is None or md.get("bodies", 0) < nb:
+            named_missing.append("%s::%s (%s of %d bodies)" % (c, m, "no summary" if md is None else md.get("bodies"), nb))
+
     # ---- TSan suite
     t1 = time.time()
     results = []
@@ -319,6 +433,7 @@ def run(chk, replay=None):
     t2 = time.time()
     reports = {}      # (class, field) or ('?', text-hash) -> dict
     scen_fail = []
+    scen_members = {}  # scenario -> [((class, field), methods)] of the reports of its runs
     ran = set()
     for (name, rnd, rc, so, se, secs) in results:
         chk.cov["evaluations"] += 1
@@ -327,11 +442,11 @@ def run(chk, replay=None):
             if rc == 0 and ("scenario %s done" % name) in so:
                 ran.add(name)
             else:
-                scen_fail.append((name, rc, (se or so)[-1500:]))
+                scen_fail.append((name, rc, fail_tail(se, so)))
             continue
         ran.add(name)
         if ("scenario %s done" % name) not in so:
-            scen_fail.append((name, rc, (se or so)[-1500:]))
+            scen_fail.append((name, rc, fail_tail(se, so)))
         for rep in reps:
             common, per = map_report(rep, idx)
             methods = set(m for hit in per for (c, f, m, k) in hit)
@@ -342,18 +457,48 @@ def run(chk, replay=None):
             for cf in sorted(common):
                 d = reports.setdefault(cf, {"scenario": name, "rep": rep, "methods": set(), "count": 0, "all": []})
                 ms = set(m for hit in per for (c, f, m, k) in hit if (c, f) == cf)
+                scen_members.setdefault(name, []).append((cf, ms))
                 d["methods"] |= ms
+                d.setdefault("fns", set()).update(fn for (_w, fr) in rep["stacks"][:2] for (fn, fl, ln) in fr)
                 d["all"].append((name, rep, ms))
                 d["count"] += 1
     chk.cov["tsan"] = {"scenarios": len(set(n for n, _ in scen)), "runs": len(results), "wall_s": round(t2 - t1, 1),
                        "reports": sorted("%s::%s" % k if k[0] != "?" else k[1] for k in reports)}
+
+    def explain_abort(name, tail):
+        """A scenario that died in the double-close assertions is the functional consequence of the recorded race on
+        TcpConnection::state_: the foreign thread's check-then-store `if (state_ == kConnected) setState(kDisconnecting)`
+        in forceClose/forceCloseWithDelay/shutdown overwrites the loop thread's kDisconnected (peer closed meanwhile), so
+        the queued ...InLoop functor runs handleClose a second time.  Explained only if this very run also showed the
+        race (TSan report on state_ with the operation's store) and that store is a recorded finding."""
+        if not re.search(r"Assertion `(n == 1|state_ == kConnected \|\| state_ == kDisconnecting)' failed", tail):
+            return None
+        for (cf, ms) in scen_members.get(name, []):
+            if cf != ("TcpConnection", "state_"):
+                continue
+            for op in ("forceClose", "forceCloseWithDelay", "shutdown"):
+                if op in ms:
+                    for key in known:
+                        if key.startswith("TcpConnection::state_@%s/setState:W|" % op):
+                            return key
+        return None
+
+    unexplained = []
+    for (name, rc, tail) in scen_fail:
+        k = explain_abort(name, tail)
+        if k:
+            chk.notes.append("scenario %s aborted in the double-close assertion (%s): lost update of the recorded race %s"
+                             % (name, tail.strip().split("\n")[-1][-160:], k))
+        else:
+            unexplained.append((name, rc, tail))
+    scen_fail = unexplained
 
     tsan_bad, tsan_known = [], []
     for cf, d in sorted(reports.items(), key=lambda kv: str(kv[0])):
         if cf[0] == "?":
             tsan_bad.append((cf, d, None))
             continue
-        k = known_for_member(cf[0], cf[1], d["methods"])
+        k = known_for_member(cf[0], cf[1], d["methods"], d.get("fns", ()))
         if k:
             tsan_known.append((cf, d, k))
         else:
@@ -394,7 +539,7 @@ def run(chk, replay=None):
         chk.known(k, "key=%s %s%s" % (k, known[k], "" if not witness_for(v[0], v[2]) else " [TSan: %s]" % witness_for(v[0], v[2])["scenario"]))
     if static_bad and not replay:
         # look harder for a run that exhibits the new violations (more rounds of the whole suite)
-        need = set((v[0], v[2]) for (k, v) in static_bad if v[3] in ("R", "W")) - set(reports)
+        need = set((v[0], v[2]) for (k, v) in static_bad if v[3] in ("R", "W", "destroy", "useafter")) - set(reports)
         extra = 0
         while need and extra < (3 if tier == "quick" else 10):
             extra += 1
@@ -408,7 +553,7 @@ def run(chk, replay=None):
             need -= set(reports)
     for (k, v) in static_bad:
         text = viol_text(recs, v, summary)
-        w = witness_for(v[0], v[2], v[1]) if v[3] in ("R", "W") else None
+        w = witness_for(v[0], v[2], v[1]) if v[3] in ("R", "W", "destroy", "useafter") else None
         if w:
             p = chk.write_replay("static_%s.case" % re.sub(r"\W+", "_", k)[:80],
                                  replay_text([text, "discipline_ok no longer holds / unrecorded violation; witness below",
@@ -476,6 +621,8 @@ def run(chk, replay=None):
     # ---- evidence
     chk.add_obligation("static: every violation of the table in the regenerated summaries is a recorded finding (Coq list = %d, unrecorded = %d)"
                        % (len(recs["V"]), len(static_bad)), not static_bad)
+    chk.add_obligation("extractor coverage: every operation the property names has a summary over all its overloads (%d methods%s)"
+                       % (len(NAMED_BODIES), "" if not named_missing else "; missing: " + ", ".join(named_missing)), not named_missing)
     chk.add_obligation("TSan suite: every report is explained by a recorded finding (%d scenarios, %d reports on %d members)"
                        % (len(ran), sum(d["count"] for d in reports.values()), len(reports)), not tsan_bad and not scen_fail)
     chk.add_obligation("fail-fast suite: %d confined operations abort off-thread, control call returns" % len(ffops), not ff_bad)
